@@ -299,9 +299,24 @@ def check_C10(pid, tier, seed, verdict):
     run = V.run_harness(pid, "open", seed, tier, sp)
     res = V.run_trace(pid, "Trace_Open.tla", "Trace_Open.cfg", run["trace"])
     verdict.add_trace_result("open", res, run)
+    # extension beyond the listed property: session negotiation (Negotiation.tla). Only the clause C10 depends on
+    # (a version >= 2 client's open is answered, a version 1 client's is not) is part of the verdict; the other
+    # clauses are reported as MODEL-DRIFT and recorded in the evidence.
+    ng = V.run_gen(pid, "MC_Negotiation.tla", "MC_Negotiation.cfg", workers=1)
+    nsp = os.path.join(V.workdir(pid), "nego.scn")
+    V.write_scenarios(nsp, ng["scenarios"])
+    nrun = V.run_harness(pid, "nego", seed, tier, nsp)
+    nres = V.run_trace(pid, "Trace_Nego.tla", "Trace_Nego.cfg", nrun["trace"])
+    drift = [b for b in nres["bad"] if not b["why"].startswith("a stream open of a version")]
+    nres["bad"] = [b for b in nres["bad"] if b["why"].startswith("a stream open of a version")]
+    for b in drift:
+        V.log(f"MODEL-DRIFT (extension Negotiation.tla, not part of the verdict): {b['why']}")
+    verdict.add_trace_result("nego", nres, nrun)
+    mcs.append(ng)
     cnt = res["cnt"]
     V.log(f"[{pid}] trace: {cnt['scn']} scenarios, {cnt['req']} requests, {cnt['done']} completions judged, "
-          f"{cnt['taccept']} target accepts, bad={len(res['bad'])}")
+          f"{cnt['taccept']} target accepts, bad={len(res['bad'])}; negotiation extension: {nres['cnt']['nego']} cases, "
+          f"bad={len(nres['bad'])}, drift={len(drift)}")
     cov = _cov(mcs, cnt["scn"], cnt["nontrivial"],
                "scenario = (in memory, virtual time) three racing opens on a real client Session against a scripted server "
                "replaying one TLC-enumerated order of answers (ok / error / duplicate / for unknown ids, fragmented) and session "
